@@ -14,11 +14,12 @@ COMMON_NOTE = (
 
 CHECKS = {
     "C01": ("part", "4 C01",
-            "structural rules over primitives, group inverse, user-action path summaries and history methods (ast + path summaries + sequence algebra)",
+            "structural rules over primitives, group inverse, user-action path summaries and history methods (ast + path summaries + sequence algebra); truthiness lints on captured ids / values; argument terms of inlined constructions",
             "Decides the structural skeleton of invertibility on every path: each primitive has an inverse building its dual on the same "
             "target, duality is an involution, prior values are captured before the edit and every captured value reaches the inverse, the "
             "group inverse reverses, every constructed sub-edit is recorded in order, annotators react to inverses, and undo/redo apply the "
-            "right recorded inverse once. Does not decide equality of recomputed values or aliasing of captured values."),
+            "right recorded inverse once; captured ids and attribute values are tested only with `is None` (0 / 0.0 / False survive capture), and "
+            "the paint-driven action hands every primitive the pixels its caller already changed. Does not decide equality of recomputed values."),
     "C02": ("part", "4 C02",
             "who-may-write analysis + symbolic sequence algebra over the history methods + per-path registration counting",
             "Decides stack ownership, the per-call shape of add_new_action / undo / redo as sequence expressions over the entry stacks "
@@ -28,72 +29,72 @@ CHECKS = {
             "abstract interpretation of user-action constructors with inlined primitives; degree/time facts at every add_edge; who-may-call",
             "Decides that every place an edge can enter a solution graph carries the merge, division and strict time-order guards on every "
             "condition-consistent path (axioms AX-FOREST / AX-TRACKPATH at action start), that add_edge has a single gate, that the "
-            "neighbour query is strict, and that undo/redo keep timeline order."),
+            "neighbour query is strict and returns the time-nearest members (list ordered by time before a positional choice), and that undo/redo keep timeline order."),
     "C04": ("part", "4 C04",
             "classification of structural steps from interpreter terms/degree facts, matched against relabel primitives on the same path",
             "Decides that no edit path changes segment adjacency without the relabel it needs and that the ids used are fresh or read in "
-            "the current state (stale reads are reported). Does not decide the iff over all node pairs nor the bulk assignment."),
+            "the current state (stale reads are reported), and that the track neighbours used for splice / bridge are the time-nearest members. Does not decide the iff over all node pairs."),
     "C05": ("core", "4 C05",
             "structural-step classification matched against lineage arguments; id-truthiness lint; worklist-loop shape of the lineage walk",
             "Decides that every edit path whose own effect joins or splits components carries a lineage update of the moved side, that a new "
             "node adopts a linked neighbour's lineage, that optional ids are not tested by truthiness and that the downstream lineage walk "
-            "cannot stop early. Three genuine defects are listed as known findings."),
+            "cannot stop early, and that bulk id writes pair each node with a value built from the same collection. Three genuine defects are listed as known findings."),
     "C06": ("part", "4 C06",
             "effect analysis (who-may-write) + pairing rules inside the track annotator + CFG dominance in the id issuer",
             "Decides cache ownership, write=>bookkeeping pairing on the same node collection, handler exhaustiveness, monotone maxima and "
-            "the reserve-then-draw discipline of new node ids. Does not decide that the lookup queries equal a scan of the graph."),
+            "the reserve-then-draw discipline of new node ids, remove-before-add order of bookkeeping moves (old id == new id), and the time ordering behind the neighbour query. Does not decide that the lookup queries equal a scan of the graph."),
     "C07": ("part", "4 C07",
             "effect analysis for the single writer, who-may-call, argument provenance, path counting of the paint decomposition, guard shape",
             "Decides who writes the array with which value coupled to which node-set change, that a stroke decomposes into exactly one "
-            "sub-edit per label, that deletion happens only when no pixel remains, and that pixels reach the recording primitive."),
+            "sub-edit per label recording the pixel group of its own node (the painted label: all groups), that deletion happens only when no pixel remains, and that pixels reach the recording primitive."),
     "C08": ("part", "4 C08",
             "trigger matrix (primitive effects x annotator handlers), mutate-then-notify ordering, spacing provenance at kernel calls",
             "Decides that every mask change of a surviving node triggers recomputation after the array was written, through one kernel with "
-            "the scale-derived spacing on both paths, and that update() leaves early only for accepted reasons. No numerical equality."),
+            "the scale-derived spacing on both paths, that update() leaves early only for accepted reasons, and that compute() keeps no memo of earlier computations that deactivation does not clear. No numerical equality."),
     "C09": ("part", "4 C09",
-            "trigger matrix + provenance analysis of the two frame indices at every IoU kernel call against the edge endpoints",
+            "trigger matrix + provenance analysis of the two frame indices at every IoU kernel call against the edge endpoints; label-value taint analysis of the kernel; def-use memo detection",
             "Decides triggers, ordering, that bulk and incremental paths hand the kernel the source's and the target's own frames for every "
-            "edge they write (also for frame-skipping edges) and that a value is matched on both labels. Not the ratio's value."),
+            "edge they write (also for frame-skipping edges), that a value is matched on both labels, that the kernel does no arithmetic on label values in the image dtype, and that compute() is memoryless. Not the ratio's value."),
     "C10": ("part", "4 C10",
             "provenance of the protected set, validate-then-change typestate, gating analysis of every annotator write",
             "Decides that all manageable features and time are protected (enabled or not), that unknown keys are rejected before any change, "
-            "that disabled features are never written by update/compute, activation <=> registration, and that enabling recomputes every key."),
+            "that disabled features are never written by update/compute, activation <=> registration, that enabling recomputes every key, and that activate/deactivate change the flags of the requested keys only."),
     "C11": ("whole*", "4 C11",
             "typestate (clean -> dirty) abstract interpretation over every path of user-action and primitive constructors with inlined callees",
             "Decides that no explicit raise/assert, opaque raising callee or modelled graph lookup on an unvalidated id is reachable after "
             "the first state change, and that registration/notification come last. Six families of genuine defects are listed as known "
-            "findings (14 keys). *Exceptions outside the modelled families are not decided."),
+            "findings (12 keys). *Exceptions outside the modelled families are not decided."),
     "C12": ("part", "4 C12",
-            "CFG dominance (validation before construction, uniqueness before renumbering), error-discipline check of validator verdicts",
+            "CFG dominance and must-pass-through (validation before construction, uniqueness before renumbering, each structural validator), error-discipline check of validator verdicts, id-truthiness lint",
             "Decides the rejection half: malformed sources cannot reach construction, no validator verdict is dropped, renumbering uses one "
-            "mapping after the uniqueness check without silently losing links, renaming reads from the original container."),
+            "mapping after the uniqueness check without silently losing links, renaming reads from the original container, source ids are never tested by truthiness, and a structural validator can be skipped only for a reason about its own input."),
     "C13": ("core", "4 C13",
             "fresh-destination / source-only-read discipline, time-index agreement, guard-shape of the relabel shortcut",
             "Decides the no-chaining mechanism (fresh zero destination, masks read only from the source at the written frame), the joint "
-            "offset of graph and id array, and that relabelling is skipped only for position-wise equal ids. Not pixel equality."),
+            "offset of graph and id array, that relabelling is skipped only for position-wise equal ids, and that the seg-id lookup of a frame is built inside that frame's iteration. Not pixel equality."),
     "C14": ("part", "4 C14",
             "writer/reader table agreement with constant folding of the axis tables; guard-shape of per-key id detection; id-truthiness lint",
             "Decides that writer and reader agree on attribute keys, registry schema, file names, axis order (ndim 3 and 4) and CSV keys, and "
-            "that loaded ids are kept per key. Does not decide value equality or third-party formats."),
+            "that loaded ids are kept per key, and that the missing-value mask of a loaded property survives renaming. Does not decide value equality or third-party formats."),
     "C15": ("core", "4 C15",
-            "taint analysis of the selection parameter, identity of the closed set across outputs, loop shape of the closure",
+            "taint analysis of the selection parameter, identity of the closed set across outputs, loop shape / loop invariant of the closure",
             "Decides that the selection reaches rows, subgraph and mask only as its ancestor closure (one set everywhere, membership mask for "
-            "pixels) and that the closure adds the ancestors of every selected node."),
+            "pixels) and that the closure adds the ancestors of every selected node (nx.ancestors per node, or a hand-written parent walk decided by its loop invariant)."),
     "C16": ("whole*", "4 C16",
             "interprocedural write-effect analysis over access paths rooted at the tracks object (aliases, views, copies by depth)",
             "Decides that no read-only entry point (exporters, savers, ~50 query methods) can write storage reachable from the tracks object; "
             "order-only writes only in the id->nodes lists. *Third-party callees are trusted by list."),
     "C17": ("core", "4 C17",
             "linear-resource pairing of stores/removals with dominating-guard check; threading and order of the pipeline",
-            "Decides consume<=>assign, no overwrite, threading and step order of the inference pipeline. Five genuine overwrite defects are "
+            "Decides consume<=>assign (including that every non-empty accumulator entry is flushed), no overwrite, threading and step order of the inference pipeline. Five genuine overwrite defects are "
             "listed as known findings; two unguarded stores are reviewed exceptions with witnesses."),
     "C18": ("part", "4 C18",
             "use-based reaching definitions on the CFG of every frame loop; sibling agreement of frame keys; accumulator discipline",
             "Decides the gap clause: no loop-carried source variable can survive an iteration un-refreshed; both siblings select node sets "
-            "by (frame, frame+1); the IoU table accumulates. Not distances or IoU values."),
+            "by (frame, frame+1); the IoU table accumulates; the IoU kernel does no arithmetic on labels in the image dtype. Not distances or IoU values."),
     "C19": ("part", "4 C19",
             "monotone-form check of the running offset, dtype discipline, fresh-destination per-frame masking of relabel-by-track",
-            "Decides that the offset never decreases, that offsets are accumulated and returned in a 64-bit dtype and that relabel-by-track "
+            "Decides that the offset never decreases, that every path into the frame loop has widened the labels to 64 bit and the result stays wide, and that relabel-by-track "
             "writes per-frame source-only masks into a fresh zero array, one label per component."),
     "C20": ("whole", "4 C20",
             "per-path counting of signal emissions in user-action constructors (nested actions inlined) and the undo/redo facade; who-may-emit",
